@@ -174,7 +174,10 @@ class Fn:
             if ta != want:
                 fail(e, "operation %s expects %s, got %s" % (spec["coq"], want, ta))
             args.append(a)
-        return "(%s%s)" % (spec["coq"], "".join(" " + a for a in args)), spec["result"]
+        c = "(%s%s)" % (spec["coq"], "".join(" " + a for a in args))
+        if spec.get("lift"):                      # a translated function without effects (result pyres T) used inside a monadic one
+            c = "(mlift %s)" % c
+        return c, spec["result"]
 
     def expr(self, e):
         spec, holes = self.match_op(e, ("pure",))
@@ -631,6 +634,15 @@ class Fn:
                 it = "(map Z.of_nat (seq 0 (Z.to_nat %s)))" % n_
                 lv = [(s.target.id, "Z")]
                 lpat = s.target.id
+            elif isinstance(s.iter, ast.Call) and isinstance(s.iter.func, ast.Name) and s.iter.func.id == "zip" and len(s.iter.args) == 3 and not s.iter.keywords:
+                parts = [self.expr(a) for a in s.iter.args]
+                if not all(t.startswith("list:") and "?" not in t for _, t in parts):
+                    fail(s, "zip of %s" % [t for _, t in parts])
+                if not (isinstance(s.target, ast.Tuple) and len(s.target.elts) == 3 and all(isinstance(x, ast.Name) for x in s.target.elts)):
+                    fail(s, "loop target")
+                it = "(combine %s (combine %s %s))" % (parts[0][0], parts[1][0], parts[2][0])
+                lv = [(x.id, t[5:]) for x, (_, t) in zip(s.target.elts, parts)]
+                lpat = "'(%s, (%s, %s))" % (lv[0][0], lv[1][0], lv[2][0])
             elif isinstance(s.iter, ast.Call) and isinstance(s.iter.func, ast.Name) and s.iter.func.id == "zip" and len(s.iter.args) == 2 and not s.iter.keywords:
                 a_, ta_ = self.expr(s.iter.args[0]); b_, tb_ = self.expr(s.iter.args[1])
                 if not (ta_.startswith("list:") and tb_.startswith("list:") and "?" not in ta_ + tb_):
